@@ -72,15 +72,40 @@ func ruleFlushRetention(r *Run, rule string, k *vecKind) {
 	type sinkT struct {
 		call *ssa.Call
 		loop *Loop
+		via  *ssa.Call // call site in the flush body when the retention loop lives in a same-receiver helper
 	}
 	var sinks []sinkT
 	allInstrs(body, func(in ssa.Instruction) {
 		if call, ok := isBuiltinCall(in, "append"); ok {
 			if l := innermostLoop(loops, call.Block()); l != nil {
-				sinks = append(sinks, sinkT{call, l})
+				sinks = append(sinks, sinkT{call, l, nil})
 			}
 		}
 	})
+	// retention loops extracted into a helper method called on the same receiver (filtered := idx.liveEdgesLocked(edges))
+	helperLoops := map[*ssa.Function][]*Loop{}
+	for _, via := range callsIn(body, func(cc *ssa.CallCommon) bool {
+		g := staticCallee(cc)
+		return g != nil && g != body && g.Pkg == w.SPkg && g.Signature.Recv() != nil && len(cc.Args) > 0 && c.S(cc.Args[0]) == "P0" &&
+			types.Identical(g.Signature.Recv().Type(), body.Signature.Recv().Type())
+	}) {
+		g := staticCallee(via.Common())
+		vc, ok := via.(*ssa.Call)
+		if !ok {
+			continue
+		}
+		if _, done := helperLoops[g]; !done {
+			helperLoops[g] = loopsOf(g)
+		}
+		allInstrs(g, func(in ssa.Instruction) {
+			if call, ok := isBuiltinCall(in, "append"); ok {
+				if l := innermostLoop(helperLoops[g], call.Block()); l != nil {
+					sinks = append(sinks, sinkT{call, l, vc})
+					r.Analysed(w.Name(g))
+				}
+			}
+		})
+	}
 	if k.Name == "hnsw" {
 		ruleHNSWFlushNodes(r, rule, k, body, clear)
 	}
@@ -100,16 +125,19 @@ func ruleFlushRetention(r *Run, rule string, k *vecKind) {
 		return
 	}
 	byLoop := map[*Loop][]*ssa.Call{}
+	viaOf := map[*Loop]*ssa.Call{}
 	var order []*Loop
 	for _, s := range sinks {
 		if byLoop[s.loop] == nil {
 			order = append(order, s.loop)
 		}
 		byLoop[s.loop] = append(byLoop[s.loop], s.call)
+		viaOf[s.loop] = s.via
 	}
 	for li, loop := range order {
 		calls := byLoop[loop]
-		site := w.InstrPos(calls[0]) + " " + name
+		via := viaOf[loop]
+		site := w.InstrPos(calls[0]) + " " + w.Name(calls[0].Parent())
 		key := fmt.Sprintf("%s:retain#%d", k.Name, li)
 		paths, trunc := enumPaths(loop.Header, walkCfg{
 			Stop:      func(b *ssa.BasicBlock) bool { return b == loop.Header || !loop.Blocks[b] },
@@ -199,17 +227,50 @@ func ruleFlushRetention(r *Run, rule string, k *vecKind) {
 			r.Ok(rule, key, site, fmt.Sprintf("retained ⇔ ¬DEL(element) on all %d body paths; %d parallel appends share the guard", len(paths), len(calls)))
 		}
 		// ordering: the retention loop completes before Clear()
-		outer := loop
-		for _, l := range loops { // outermost enclosing loop that does not contain the Clear
-			if l.Blocks[loop.Header] && !l.Blocks[clear.Block()] && len(l.Blocks) > len(outer.Blocks) {
-				outer = l
+		precedes := false
+		if via == nil {
+			outer := loop
+			for _, l := range loops { // outermost enclosing loop that does not contain the Clear
+				if l.Blocks[loop.Header] && !l.Blocks[clear.Block()] && len(l.Blocks) > len(outer.Blocks) {
+					outer = l
+				}
+			}
+			precedes = outer.Header.Dominates(clear.Block()) && !outer.Blocks[clear.Block()]
+		} else {
+			// the helper is called before Clear(): straight-line, or from a loop that completes before it
+			precedes = domInstr(via, clear)
+			for _, l := range loops {
+				if l.Blocks[via.Block()] && !l.Blocks[clear.Block()] && l.Header.Dominates(clear.Block()) {
+					precedes = true
+				}
 			}
 		}
-		r.Check(outer.Header.Dominates(clear.Block()) && !outer.Blocks[clear.Block()], rule, key+":before-clear", site,
+		r.Check(precedes, rule, key+":before-clear", site,
 			"retention loop precedes the Clear() of the soft-delete bitmap", "the soft-delete bitmap is cleared before (or inside) the retention loop")
 		// the filtered slice is stored back into index state
 		stored := false
-		for _, call := range calls {
+		starts := []ssa.Value{}
+		if via == nil {
+			for _, call := range calls {
+				starts = append(starts, call)
+			}
+		} else {
+			// the helper must hand the filtered slice back, and the call's result is what gets stored
+			returned := false
+			for _, ret := range returnsOf(via.Common().StaticCallee()) {
+				for _, res := range ret.Results {
+					for _, call := range calls {
+						if flowsTo(call, res, 6) {
+							returned = true
+						}
+					}
+				}
+			}
+			if returned {
+				starts = append(starts, via)
+			}
+		}
+		for _, call := range starts {
 			seen := map[ssa.Value]bool{}
 			var follow func(v ssa.Value, d int)
 			follow = func(v ssa.Value, d int) {
@@ -254,6 +315,29 @@ func ruleFlushRetention(r *Run, rule string, k *vecKind) {
 		r.Check(stored, rule, key+":stored", site, "the filtered container replaces the index's container before Clear()",
 			"the filtered container is never stored back into the index before Clear()")
 	}
+}
+
+// flowsTo: to is from, or a phi / extract of it (bounded).
+func flowsTo(from, to ssa.Value, depth int) bool {
+	if from == to {
+		return true
+	}
+	if depth == 0 {
+		return false
+	}
+	switch x := to.(type) {
+	case *ssa.Phi:
+		for _, e := range x.Edges {
+			if e != to && flowsTo(from, e, depth-1) {
+				return true
+			}
+		}
+	case *ssa.Extract:
+		return flowsTo(from, x.Tuple, depth-1)
+	case *ssa.ChangeType:
+		return flowsTo(from, x.X, depth-1)
+	}
+	return false
 }
 
 // ruleHNSWFlushNodes: every soft-deleted id is deleted from the node map before Clear().
@@ -305,7 +389,8 @@ func ruleRemoveMarks(r *Run, rule string, k *vecKind) {
 		ret, ok := in.(*ssa.Return)
 		return ok && classifyErr(ret) != ErrNonNil
 	}
-	esc := reachAvoid(fn, nil, isSuccess, isMark)
+	_ = isSuccess
+	esc := successEscapes(fn, isMark, nil)
 	site := w.Pos(fn.Pos()) + " " + name
 	if esc != nil {
 		r.Bad(rule, k.Name+":mark", w.InstrPos(esc)+" "+name, "a success return of Remove is reachable without "+k.DelField+".Add(id of the argument)")
@@ -319,12 +404,7 @@ func ruleRemoveMarks(r *Run, rule string, k *vecKind) {
 	})
 	r.Check(n > 0, rule, k.Name+":mark", site, "every success path marks the argument's id in "+k.DelField, "Remove never marks the id")
 	// unknown / already deleted ⇒ error: at least two provably non-nil error returns
-	nerr := 0
-	for _, ret := range returnsOf(fn) {
-		if classifyErr(ret) == ErrNonNil {
-			nerr++
-		}
-	}
+	nerr := errorOrigins(fn)
 	r.Check(nerr >= 2, rule, k.Name+":errors", site, fmt.Sprintf("%d error returns (not found / already deleted)", nerr),
 		fmt.Sprintf("Remove has %d error returns; unknown and already-removed ids must both fail", nerr))
 }
@@ -583,4 +663,75 @@ func ruleCtorDistance(r *Run, rule string, k *vecKind) {
 		ok = strings.HasPrefix(dk, "P") && d == "NewDistance("+dk+")#0"
 	}
 	r.Check(ok, rule, k.Name+":ctor:distance", w.Pos(ctor.Pos())+" "+w.Name(ctor), "distance = NewDistance(distanceKind) for the constructor's own kind parameter", "constructor stores "+detail)
+}
+
+// ruleDocumentFilter: the id restriction: nil filter ⇔ empty id list (no restriction); the filter holds exactly the given
+// ids; eligible ⇔ nil ∨ contains; skip = ¬eligible.
+func ruleDocumentFilter(r *Run, rule string) {
+	w := r.W
+	r.Doc(rule, "the document-id restriction admits ids outside the list or drops listed ones")
+	nf, el, sk := w.Fn("NewDocumentFilter"), w.Fn("(*DocumentFilter).IsEligible"), w.Fn("(*DocumentFilter).ShouldSkip")
+	if nf == nil || el == nil || sk == nil {
+		r.Unres(rule, "filter:functions", "NewDocumentFilter / IsEligible / ShouldSkip not found")
+		return
+	}
+	r.Analysed(w.Name(nf), w.Name(el), w.Name(sk))
+	c := NewCanon(w)
+	// constructor: returns nil exactly when len(ids) == 0
+	nilOK, addAll, cleared := false, false, false
+	for _, ret := range returnsOf(nf) {
+		if cst, ok := ret.Results[0].(*ssa.Const); ok && cst.Value == nil {
+			nilOK = guardedBy(c, ret, func(cmp Cmp, neg bool) (bool, bool) {
+				if cmp.Op == token.EQL && (cmp.L == "len(P0)" || cmp.R == "len(P0)") && (cmp.L == "c(0)" || cmp.R == "c(0)") {
+					return !neg, true
+				}
+				return false, false
+			})
+		}
+	}
+	allInstrs(nf, func(in ssa.Instruction) {
+		if call, ok := in.(*ssa.Call); ok {
+			switch calleeName(call.Common()) {
+			case roaringBitmap + "Add":
+				if c.S(call.Call.Args[1]) == "P0[range]" {
+					addAll = true
+				}
+			case roaringBitmap + "AddMany":
+				if c.S(call.Call.Args[1]) == "P0" {
+					addAll = true
+				}
+			case roaringBitmap + "Clear":
+				cleared = true
+			}
+		}
+	})
+	site := w.Pos(nf.Pos()) + " NewDocumentFilter"
+	r.Check(nilOK, rule, "filter:nil-iff-empty", site, "no filter (nil) ⇔ the id list is empty", "the nil filter is not returned exactly for an empty id list")
+	r.Check(addAll && cleared, rule, "filter:holds-ids", site, "the (reset) bitmap receives every listed id", fmt.Sprintf("bitmap reset=%v, every id added=%v", cleared, addAll))
+	// IsEligible: nil ⇒ true; else Contains(bitmap, id)
+	c2 := NewCanon(w)
+	okNil, okContains := false, false
+	for _, ret := range returnsOf(el) {
+		v := ret.Results[0]
+		if cst, ok := v.(*ssa.Const); ok && cst.Value != nil && cst.Value.ExactString() == "true" {
+			okNil = guardedBy(c2, ret, func(cmp Cmp, neg bool) (bool, bool) {
+				if cmp.Op == token.EQL && (cmp.L == "P0" && cmp.R == "nil" || cmp.L == "nil" && cmp.R == "P0") {
+					return !neg, true
+				}
+				return false, false
+			})
+		}
+		if s := c2.S(v); s == roaringBitmap+"Contains(P0.bitmap,P1)" {
+			okContains = true
+		}
+	}
+	r.Check(okNil && okContains, rule, "filter:eligible", w.Pos(el.Pos())+" "+w.Name(el), "eligible ⇔ filter is nil ∨ bitmap.Contains(id)", fmt.Sprintf("nil⇒true: %v, otherwise Contains(bitmap,id): %v", okNil, okContains))
+	c3 := NewCanon(w)
+	okSkip := false
+	for _, ret := range returnsOf(sk) {
+		if s := c3.S(ret.Results[0]); s == "!(*DocumentFilter).IsEligible(P0,P1)" {
+			okSkip = true
+		}
+	}
+	r.Check(okSkip, rule, "filter:skip", w.Pos(sk.Pos())+" "+w.Name(sk), "skip = ¬eligible", "ShouldSkip is not the negation of IsEligible for the same id")
 }
